@@ -16,6 +16,7 @@ import (
 	"runtime"
 	"strings"
 	"sync"
+	"sync/atomic"
 	"time"
 
 	"github.com/safing/portbase/log"
@@ -44,6 +45,8 @@ type script struct {
 	Policy    []string `json:"policy"`
 	Probes    bool     `json:"probes"`
 	WaitAgain bool     `json:"waitAgain"` // before the stop: re-queue failed tasks and give restarts time (C06)
+	Prelude   bool     `json:"prelude"`   // mode manage: an earlier life cycle of M whose stop ran into its timeout (a worker that
+	// ignores its context); M is started again, the straggler returns, then the judged history begins
 	Patient   bool     `json:"patient"`   // wait up to the documented execution-wait limit (1 min) for re-runs
 }
 
@@ -71,7 +74,13 @@ var (
 	stopOnce sync.Once
 )
 
+// quiet: the prelude (an earlier, unjudged life cycle of M) is running - nothing is recorded, nothing is parked
+var quiet atomic.Bool
+
 func emit(ev map[string]any) {
+	if quiet.Load() {
+		return
+	}
 	ev["t"] = sch.Ms()
 	ev["h"] = 0
 	tr.Emit(ev)
@@ -401,6 +410,9 @@ func main() {
 	var stopFn func() error
 	if sc.HasStopFn {
 		stopFn = func() error {
+			if quiet.Load() {
+				return nil // prelude: the stop routine returns at once, the straggling worker is what the stop waits for
+			}
 			sch.Bind("fn")
 			emit(map[string]any{"e": "fnbegin", "ctxdone": modM.Ctx.Err() != nil})
 			sch.Yield("fn", "fn")
@@ -442,6 +454,9 @@ func main() {
 		if m != nil {
 			tag = m.Name
 		}
+		if quiet.Load() {
+			return
+		}
 		if os.Getenv("VERIF_DEBUG") != "" {
 			emit(map[string]any{"e": "note", "point": point, "tag": tag, "actor": sch.Actor()})
 		}
@@ -469,6 +484,30 @@ func main() {
 	if err := modules.Start(); err != nil {
 		fmt.Fprintln(os.Stderr, "start failed:", err)
 		os.Exit(2)
+	}
+	if sc.Prelude && sc.Mode == "manage" {
+		quiet.Store(true)
+		modules.VerifSetTimeouts(10*time.Second, 300*time.Millisecond)
+		release := make(chan struct{})
+		returned := make(chan struct{})
+		modM.StartWorker("straggler", func(context.Context) error {
+			<-release // does not look at its context
+			close(returned)
+			return nil
+		})
+		time.Sleep(5 * time.Millisecond)
+		modM.Disable()
+		_ = modules.ManageModules() // runs into the stop timeout
+		modules.VerifSetTimeouts(10*time.Second, 8*time.Second)
+		modM.Enable()
+		if err := modules.ManageModules(); err != nil || !modM.Online() {
+			fmt.Fprintln(os.Stderr, "prelude: M did not come back:", err)
+			os.Exit(2)
+		}
+		close(release)
+		<-returned
+		time.Sleep(20 * time.Millisecond)
+		quiet.Store(false)
 	}
 	for i := range sc.Items {
 		it := &sc.Items[i]
